@@ -18,10 +18,9 @@ package port
 
 import (
 	"encoding/json"
-	"net"
 	"net/http"
+	"net/url"
 	"strconv"
-	"strings"
 
 	"github.com/google/martian/v3"
 	"github.com/google/martian/v3/parse"
@@ -35,24 +34,29 @@ func init() {
 
 // Filter runs modifiers iff the port in the request URL matches port.
 type Filter struct {
-	reqmod martian.RequestModifier
-	resmod martian.ResponseModifier
-	port   int
+	reqmod  martian.RequestModifier
+	resmod  martian.ResponseModifier
+	freqmod martian.RequestModifier
+	fresmod martian.ResponseModifier
+	port    int
 }
 
 type filterJSON struct {
-	Port     int                  `json:"port"`
-	Modifier json.RawMessage      `json:"modifier"`
-	Scope    []parse.ModifierType `json:"scope"`
+	Port         int                  `json:"port"`
+	Modifier     json.RawMessage      `json:"modifier"`
+	ElseModifier json.RawMessage      `json:"else"`
+	Scope        []parse.ModifierType `json:"scope"`
 }
 
 // NewFilter returns a filter that executes modifiers if the port of
 // request matches port.
 func NewFilter(port int) *Filter {
 	return &Filter{
-		port:   port,
-		reqmod: noop,
-		resmod: noop,
+		port:    port,
+		reqmod:  noop,
+		resmod:  noop,
+		freqmod: noop,
+		fresmod: noop,
 	}
 }
 
@@ -74,69 +78,44 @@ func (f *Filter) SetResponseModifier(resmod martian.ResponseModifier) {
 	f.resmod = resmod
 }
 
-// ModifyRequest runs the modifier if the port matches the provided port.
-func (f *Filter) ModifyRequest(req *http.Request) error {
-	var defaultPort int
-	if req.URL.Scheme == "http" {
-		defaultPort = 80
-	}
-	if req.URL.Scheme == "https" {
-		defaultPort = 443
-	}
-
-	hasPort := strings.Contains(req.URL.Host, ":")
-	if hasPort {
-		_, p, err := net.SplitHostPort(req.URL.Host)
-		if err != nil {
-			return err
+// matches reports whether the port of u - the explicit one, else the default
+// of its scheme - is the filter's port.
+func (f *Filter) matches(u *url.URL) bool {
+	p := u.Port()
+	if p == "" {
+		// no port explictly declared - default port
+		var defaultPort int
+		switch u.Scheme {
+		case "http":
+			defaultPort = 80
+		case "https":
+			defaultPort = 443
 		}
-
-		pt, err := strconv.Atoi(p)
-		if err != nil {
-			return err
-		}
-		if pt == f.port {
-			return f.reqmod.ModifyRequest(req)
-		}
-		return nil
-	}
-
-	// no port explictly declared - default port
-	if f.port == defaultPort {
-		return f.reqmod.ModifyRequest(req)
-	}
-
-	return nil
-}
-
-// ModifyResponse runs the modifier if the request URL matches urlMatcher.
-func (f *Filter) ModifyResponse(res *http.Response) error {
-	var defaultPort int
-	if res.Request.URL.Scheme == "http" {
-		defaultPort = 80
-	}
-	if res.Request.URL.Scheme == "https" {
-		defaultPort = 443
-	}
-
-	if !strings.Contains(res.Request.URL.Host, ":") && (f.port == defaultPort) {
-		return f.resmod.ModifyResponse(res)
-	}
-
-	_, p, err := net.SplitHostPort(res.Request.URL.Host)
-	if err != nil {
-		return err
+		return f.port == defaultPort
 	}
 
 	pt, err := strconv.Atoi(p)
-	if err != nil {
-		return err
+	return err == nil && pt == f.port
+}
+
+// ModifyRequest runs the modifier if the port matches the provided port,
+// otherwise the else modifier.
+func (f *Filter) ModifyRequest(req *http.Request) error {
+	if f.matches(req.URL) {
+		return f.reqmod.ModifyRequest(req)
 	}
-	if pt == f.port {
+
+	return f.freqmod.ModifyRequest(req)
+}
+
+// ModifyResponse runs the modifier if the port of the request URL matches the
+// provided port, otherwise the else modifier.
+func (f *Filter) ModifyResponse(res *http.Response) error {
+	if f.matches(res.Request.URL) {
 		return f.resmod.ModifyResponse(res)
 	}
 
-	return nil
+	return f.fresmod.ModifyResponse(res)
 }
 
 func filterFromJSON(b []byte) (*parse.Result, error) {
@@ -162,6 +141,19 @@ func filterFromJSON(b []byte) (*parse.Result, error) {
 	resmod := r.ResponseModifier()
 	if resmod != nil {
 		filter.SetResponseModifier(resmod)
+	}
+
+	if len(msg.ElseModifier) > 0 {
+		em, err := parse.FromJSON(msg.ElseModifier)
+		if err != nil {
+			return nil, err
+		}
+		if m := em.RequestModifier(); m != nil {
+			filter.freqmod = m
+		}
+		if m := em.ResponseModifier(); m != nil {
+			filter.fresmod = m
+		}
 	}
 
 	return parse.NewResult(filter, msg.Scope)
